@@ -38,7 +38,9 @@ CONSTANTS Ids,        \* edge end-point ids (integers; 0 = the empty id)
           SKinds,     \* store doubles: "none", "w" (weights fallback), "expimp" (export_state/import_state)
           WKeys,      \* store weight keys 1..WKeys
           SVals,      \* store weight tokens
-          Auxs        \* harness-level variation (state form, graph key, agent) - opaque to the model
+          Auxs,       \* harness-level variation (state form, graph key, agent) - opaque to the model
+          NanRule     \* "clamp0": NaN counts as 0.0 and is clamped like any value (documented reading);
+                      \* "zero":   NaN becomes 0.0 after the clamp (control: refuted when 0 lies outside the bounds)
 
 SchemaMarker == "v1"          \* docs/m13/snapshot_freeze.md: schema_version "v1" (frozen)
 MetaKeeps == {"good", "partial"}   \* shapes whose known fields are carried over
@@ -66,7 +68,7 @@ Round6(v) == LET a == Abs(v)
 ClampI(v, b) == IF v < b.lo THEN b.lo ELSE IF v > b.hi THEN b.hi ELSE v
 Clamp(w, b) == IF w.c = "pinf" THEN b.hi
                ELSE IF w.c = "ninf" THEN b.lo
-               ELSE IF w.c = "nan" THEN ClampI(0, b)
+               ELSE IF w.c = "nan" THEN (IF NanRule = "zero" THEN 0 ELSE ClampI(0, b))
                ELSE ClampI(w.v, b)
 SanW(w, b) == LET r == Round6(Clamp(w, b)) IN IF Abs(r) < b.eps THEN 0 ELSE r
 
